@@ -119,6 +119,26 @@ def brief(steps):
     return out
 
 
+def _cover_worker(dot, tag, N, nshard, prefix):
+    """loads one dumped state graph, covers every transition by paths, writes the behaviours as <prefix>_<k>.ndjson; returns the measured numbers"""
+    inits, nodes, adj = pathcover.load_graph(dot)
+    os.remove(dot)
+    paths, ncov, nedges = pathcover.cover(inits, nodes, adj)
+    taken = {}
+    for n_, rec in nodes.items():
+        if rec and rec.get("a") != "Init": taken[rec["a"]] = taken.get(rec["a"], 0) + 1
+    files = ["%s_%d.ndjson" % (prefix, k) for k in range(nshard)]
+    fh = [open(f, "w") for f in files]
+    sample = None; cand = None
+    for i, p in enumerate(paths):
+        row = {"id": "%s/%d" % (tag, i), "N": N, "steps": [flat(nodes[n]) for n in p[1:]]}
+        fh[i % nshard].write(json.dumps(row, separators=(",", ":")) + "\n")
+        if i == len(paths) // 2: sample = {"kind": "behaviour replayed (%s)" % tag, "steps": brief(row["steps"]), "callbacks_of_last_call": row["steps"][-1]["ev"]}
+        if cand is None and any(s["ev"] for s in row["steps"]): cand = row
+    for f in fh: f.close()
+    return {"files": files, "paths": len(paths), "covered": ncov, "edges": nedges, "states": len(nodes), "taken": taken, "sample": sample, "cand": cand}
+
+
 def stage(v, tier, seed):
     vlib.make("asan", "life")
     life = vlib.binpath("asan", "life")
@@ -145,21 +165,17 @@ def stage(v, tier, seed):
                  "and is told ClientConnectionClosed() although its connect is still in progress; the stages below give every server-side socket a never-used number" % prop)
 
     # ------------------------------------------------------------------------------------------------ 1. + 2. model checking and graph dump
+    nshard = 2 if quick else 4
+
     def generate(inst):
         tag, N = inst[0], inst[1]
         name = cfg("gen_Gen_%s.cfg" % tag, *inst[1:], modes=modes, record=True, invs=CLAUSES)
         dot = W("g_%s.dot" % tag)
         r = tlc("LifeMC", name, workers=1 if quick else 2, timeout=2400, heap="6g", dump=dot)
         vlib.require_ok(r, "LifeImpl model check + graph dump %s" % tag)
-        inits, nodes, adj = pathcover.load_graph(dot)
-        os.remove(dot)
-        paths, ncov, nedges = pathcover.cover(inits, nodes, adj)
-        if ncov != nedges: raise vlib.MachineryError("path cover incomplete (%s): %d of %d" % (tag, ncov, nedges))
-        taken = {}
-        for n_, rec in nodes.items():
-            if rec and rec.get("a") != "Init": taken[rec["a"]] = taken.get(rec["a"], 0) + 1
-        beh = [[flat(nodes[n]) for n in p[1:]] for p in paths]
-        return {"tag": tag, "N": N, "behaviours": beh, "edges": nedges, "states": len(nodes), "distinct": r.distinct, "generated": r.generated, "depth": r.depth, "wall": round(r.wall, 1), "taken": taken}
+        c = pp.submit(_cover_worker, dot, tag, N, nshard, W("beh_%s" % tag)).result()
+        if c["covered"] != c["edges"]: raise vlib.MachineryError("path cover incomplete (%s): %d of %d" % (tag, c["covered"], c["edges"]))
+        return dict(c, tag=tag, N=N, distinct=r.distinct, generated=r.generated, depth=r.depth, wall=round(r.wall, 1))
 
     def model_check(inst, mm):
         tag = inst[0] + "_" + mm[0] + "_" + mm[1]
@@ -185,8 +201,11 @@ def stage(v, tier, seed):
         return {"tag": tag, "rc": rc, "rows": rows, "stderr": (out[-1500:] + "\n" + err[-6000:]) if rc != 0 else err[-2000:], "cur": cur}
 
     def replay(rows, tag, is_rerun=False):
-        bf = W("beh_%s.ndjson" % tag); rep = W("rep_%s.ndjson" % tag)
-        vlib.write_ndjson(bf, rows)
+        """rows: a list of behaviours, or the name of a file that holds them"""
+        rep = W("rep_%s.ndjson" % tag)
+        if isinstance(rows, str): bf = rows
+        else:
+            bf = W("beh_%s.ndjson" % tag); vlib.write_ndjson(bf, rows)
         res = harness(["replay", bf, rep], tag, rep)
         if not is_rerun and isinstance(res["cur"], dict) and "steps" in res["cur"]: res["rerun"] = lambda: replay([res["cur"]], tag + "-rerun", True)
         return res
@@ -261,14 +280,13 @@ def stage(v, tier, seed):
 
     # ================================================================================================ schedule
     insts = QUICK if quick else THOROUGH
-    nshard = 2 if quick else 4
     nh, ns, NR = (250, 30, 4) if quick else (6000, 40, 5)
     rshards = 4 if quick else 8
     gens = []; mcs = []; guards = []
     agg = {"behaviours": 0, "followed": 0, "drifted": 0, "steps": 0, "calls": 0, "callbacks": 0, "sessions": 0}
     ragg = {"histories": 0, "clean": 0, "steps": 0, "callbacks": 0, "trace_lines": 0, "sessions": 0, "nested_actions_fired": 0}
     accepted_hist = 0; tstates = 0; samples = []; first_trace = None
-    with cf.ThreadPoolExecutor(max_workers=8) as ex, cf.ThreadPoolExecutor(max_workers=8) as hx:
+    with cf.ThreadPoolExecutor(max_workers=8) as ex, cf.ThreadPoolExecutor(max_workers=8) as hx, cf.ProcessPoolExecutor(max_workers=4 if quick else 6) as pp:
         f_rand = [hx.submit(random_histories, nh, ns, NR, k) for k in range(rshards)]
         f_gen = [ex.submit(generate, i) for i in insts]
         f_reach = [ex.submit(reach, i, d, w_, a) for i, (d, w_, a) in enumerate(REACH)]
@@ -276,16 +294,13 @@ def stage(v, tier, seed):
         f_rep = []; bad_submitted = None
         for f in cf.as_completed(f_gen):
             g = f.result(); gens.append(g)
-            rows = [{"id": "%s/%d" % (g["tag"], i), "N": g["N"], "steps": b} for i, b in enumerate(g["behaviours"])]
-            if len(samples) < 3 and rows: samples.append({"kind": "behaviour replayed (%s)" % g["tag"], "steps": brief(rows[len(rows) // 2]["steps"]), "callbacks_of_last_call": rows[len(rows) // 2]["steps"][-1]["ev"]})
-            f_rep += [hx.submit(replay, rows[k::nshard], "%s_%d" % (g["tag"], k)) for k in range(nshard)]
-            if bad_submitted is None:
+            if len(samples) < 3 and g["sample"]: samples.append(g["sample"])
+            f_rep += [hx.submit(replay, bf, "%s_%d" % (g["tag"], k)) for k, bf in enumerate(g["files"])]
+            if bad_submitted is None and g["cand"]:
                 # self-test: a behaviour with one expected callback removed must be reported (as drift) by the harness
-                cand = next((r for r in rows if any(s["ev"] for s in r["steps"])), None)
-                if cand:
-                    bad = json.loads(json.dumps(cand)); st = next(s for s in bad["steps"] if s["ev"]); st["ev"] = st["ev"][:-1]
-                    bad_submitted = hx.submit(replay, [bad], "selftest", True)
-            del g["behaviours"]
+                bad = json.loads(json.dumps(g["cand"])); st = next(s for s in bad["steps"] if s["ev"]); st["ev"] = st["ev"][:-1]
+                bad_submitted = hx.submit(replay, [bad], "selftest", True)
+            del g["cand"]
         for f in f_reach:
             dev, want, got = f.result(); guards.append("%s->%s" % (dev, got))
             if got != want: raise vlib.MachineryError("vacuity guard: LifeImpl with the wrong design %s does not violate %s (TLC says: %s)" % (dev, want, got))
